@@ -391,6 +391,9 @@ func (tr *fnTrans) applySpecIn(sp *FuncSpec, name string, args []Term, sig *type
 	if sp.Flags["unproved"] != "" {
 		tr.c.trusted["unproved-callee:"+sp.Key] = true
 	}
+	if tr.nonblocking && sp.Flags["blocking"] != "" {
+		tr.oblige("select", fmt.Sprintf("call.%s.nonblocking#%d", short, n), "false", p, nil, "call of a blocking function in a non-blocking function")
+	}
 	if sp.Kind != "func" {
 		tr.c.trusted["assumed-contract:"+sp.Kind+":"+sp.Key] = true
 	} else if tr.eng.LookupFunc(sp.Key) == nil {
@@ -892,11 +895,32 @@ func (tr *fnTrans) specDecls() string {
 			}()
 			emitted[name] = fmt.Sprintf("(declare-fun %s (%s) %s)\n", q("f:"+name), strings.Join(ps, " "), rs)
 		}
+		before := map[string]bool{}
+		for k := range c.usedFuns {
+			before[k] = true
+		}
 		body, ps, rs := bodyOf(fd)
-		// dependencies first
+		// dependencies (functions first mentioned by this body) come first
+		var deps []string
 		for dep := range c.usedFuns {
+			if !before[dep] {
+				deps = append(deps, dep)
+			}
+		}
+		sort.Strings(deps)
+		for _, dep := range deps {
 			if _, ok := emitted[dep]; !ok {
 				emit(dep)
+			}
+		}
+		// functions mentioned by the body that were already known but not yet emitted
+		if fd.Body != nil {
+			var more []string
+			collectCalls(fd.Body, &more)
+			for _, dep := range more {
+				if _, ok := emitted[dep]; !ok && sp.FunIdx[dep] != nil {
+					emit(dep)
+				}
 			}
 		}
 		switch {
@@ -925,8 +949,19 @@ func (tr *fnTrans) specDecls() string {
 		c.useFun("elem")
 	}
 	axText := map[*AxiomDecl]string{}
+	lemmaDone := false
+	var lemmaTexts []string
 	for changed := true; changed; {
 		changed = false
+		if !lemmaDone && len(sp.Lemmas) > 0 {
+			before := len(c.usedFuns)
+			lemmaTexts = tr.lemmaFacts()
+			if len(c.usedFuns) != before {
+				changed = true
+			} else {
+				lemmaDone = true
+			}
+		}
 		var names []string
 		for n := range c.usedFuns {
 			names = append(names, n)
@@ -968,6 +1003,9 @@ func (tr *fnTrans) specDecls() string {
 			fmt.Fprintf(&sb, "(assert %s)\n", s)
 		}
 	}
+	for _, lt := range lemmaTexts {
+		fmt.Fprintf(&sb, "(assert %s)\n", lt)
+	}
 	if c.usedFuns["typeOfDyn"] {
 		for _, f := range c.tidFacts() {
 			fmt.Fprintf(&sb, "(assert %s)\n", f)
@@ -984,6 +1022,21 @@ func shortWhere(w string) string {
 		return w[i+1:]
 	}
 	return w
+}
+
+func collectCalls(e *Expr, out *[]string) {
+	if e == nil {
+		return
+	}
+	if e.Op == "call" || e.Op == "ident" {
+		*out = append(*out, e.Name)
+	}
+	for _, a := range e.Args {
+		collectCalls(a, out)
+	}
+	for _, a := range e.Trig {
+		collectCalls(a, out)
+	}
 }
 
 func exprMentions(e *Expr, names map[string]bool) bool {
